@@ -173,6 +173,20 @@ func (d *driver) runPolyCase(w emitter, k int, c *polyCase) {
 		f := polyClass(c.F, c.J, p)
 		ip, _ := ipa.InnerProd(f, b)
 		w.emit(ev{"ev": "bary", "k": k, "cls": c.Z, "z": limbsOfBig(z), "out": vecReg(b), "f": vecReg(f), "fcls": c.F, "ip": frReg(&ip), "full": c.Full})
+	case "baryhist":
+		// a call outside the property's quantification first (z = j inside the domain: recorded, not judged), then - on the same
+		// PrecomputedWeights - the judged call, twice (whatever the first call left behind may surface on a later use only)
+		var zin fr.Element
+		zin.SetUint64(uint64(c.J))
+		pre := cfg.PrecomputedWeights.ComputeBarycentricCoefficients(zin)
+		w.emit(ev{"ev": "bary_pre", "k": k, "j": c.J, "out": vecReg(pre)})
+		z := pointValue(c.Z, p)
+		for rep := 0; rep < 2; rep++ {
+			b := cfg.PrecomputedWeights.ComputeBarycentricCoefficients(frFromBig(z))
+			f := polyClass(c.F, rep+1, p)
+			ip, _ := ipa.InnerProd(f, b)
+			w.emit(ev{"ev": "bary", "k": k, "cls": c.Z, "z": limbsOfBig(z), "out": vecReg(b), "f": vecReg(f), "fcls": c.F, "ip": frReg(&ip), "full": c.Full && rep == 0})
+		}
 	case "tables":
 		bw := ipa.VerifBarycentricWeights(cfg.PrecomputedWeights)
 		inv := ipa.VerifInvertedDomain(cfg.PrecomputedWeights)
